@@ -2,7 +2,7 @@ PID = "C17"
 WORKER = "w_c17"
 HEADER = "From Coq Require Import List ZArith QArith Qcanon.\nFrom Dimod Require Import Base.Util Model.Poly Model.Comb Gen.Gen_Gates Gen.Gen_Combinations Gen.Gen_Graph Model.Gates Model.Knap Model.QKnap Gen.Gen_Knap Model.MultCircuit Model.Qap Model.Magic Model.Sat Gen.Gen_Sat Model.ChkC17.\nImport ListNotations."
 CHECK_FN = "check"
-N_QUICK = 1200
+N_QUICK = 1600
 N_THOROUGH = 30000
 SHARD = 100
 TIMEOUT = 2400
@@ -12,6 +12,7 @@ RULE = ("gates (and/or/xor/halfadder/fulladder) with random distinct labels (int
         "multiplication_circuit(n, m), n,m <= 3: minimum over the auxiliaries for every (a, b, p); n,m <= 6: coefficients against the wiring model; "
         "combinations(n|labels, k) BINARY/SPIN, all assignments, rejected k; independent_set / maximum_independent_set / "
         "maximum_weight_independent_set with repeated edges, partial and repeated node lists, strength / strength_multiplier; "
+        "quadratic_knapsack / quadratic_multi_knapsack (translated constructions as the model, all assignments); anti_crossing_clique / _loops (monitored); "
         "random_nae3sat / random_2in4sat / random_kmcsat (n <= 6, planted or not, labels, seeds incl. 0): BQM against the clauses replayed from the seed, all spin assignments; "
         "magic_square(n <= 4, power 1/2): constraints against Model/Magic.v, check_feasible on magic / Latin / random integer squares; "
         "quadratic_assignment (n <= 3, symmetric distances, list / array input) against Model/Qap.v and the documented cost on every placement; "
@@ -22,6 +23,7 @@ TRUSTED = ["translators/gates_tables.py (fail-closed ast translator: gates.py ->
            "translators/graph_constants.py (fail-closed ast translator: shapes, literals and keyword defaults of the independent-set generators -> Gen/Gen_Graph.v)",
            "translators/knap_constructions.py (fail-closed ast translator of the CQM construction loops of knapsack, quadratic_knapsack, multi_knapsack, quadratic_multi_knapsack, bin_packing -> Gen/Gen_Knap.v)",
            "translators/sat_clause_terms.py (fail-closed shape lock of _kmcsat_interactions / random_kmcsat and its wrappers -> Gen/Gen_Sat.v)",
+           "translators/shape_locks.py (fail-closed shape lock of quadratic_assignment, magic_square, multiplication_circuit: the hand-written mirrors Qap.v / Magic.v / MultCircuit.v are tied coefficient-wise and locked to the source text)",
            "translators/combinations_rule.py (fail-closed ast translator: the coefficient rule of combinations -> Gen/Gen_Combinations.v)",
            "model: coq/theories/Model/Gates.v, Comb.v (combinations_energy), Knap.v (knapsack / multi-knapsack / bin packing), "
            "MultCircuit.v (wiring of multiplication_circuit), ChkC17.v (hand written, tied by this correspondence)",
@@ -37,8 +39,20 @@ ASSUMPTIONS = ["the coefficients a BQM reports define its energy, and BQM.energi
                "labels passed to a generator are pairwise distinct",
                "IEEE-754 arithmetic is exact on the small dyadic/integer coefficients generated"]
 PARTIAL = ["quadratic_assignment: C17_qap_cost_symmetric needs a symmetric distance matrix; for an asymmetric one the generated objective is "
-           "not the documented cost (C17_qap_asymmetric_refuted, corpus/C17/qap_asymmetric.json); asymmetric matrices are kept out of the random stream (QAP_ASYMMETRIC in w_c17.py)",
-           "magic_square: constraints tied coefficient-wise and on integer assignments; only necessity of the uniqueness constraint is a "
-           "theorem (C17_magic_uniqueness_necessary); it is not sufficient (C17_magic_uniqueness_not_sufficient_refuted: a Latin square is feasible)",
-           "satisfiability generators: only the draws of numpy's Generator (which k variables, which sign bits) are an oracle, replayed from the seed in the worker; how a draw becomes terms is translated from the source and proved",
-           "random generators: monitored only"]
+           "not the documented cost (C17_qap_asymmetric_refuted); asymmetric matrices are kept out of the random stream (QAP_ASYMMETRIC in w_c17.py); "
+           "the mirror Model/Qap.v is hand written, tied coefficient-wise and shape-locked to the source (no construction translator)",
+           "magic_square: constraints tied coefficient-wise and on integer assignments, mirror shape-locked; only necessity of the uniqueness "
+           "constraint is a theorem (C17_magic_uniqueness_necessary); it is not sufficient (C17_magic_uniqueness_not_sufficient_refuted)",
+           "multiplication_circuit: theorem for all n, m >= 2 on the hand-written wiring mirror (Model/MultCircuit.v), tied coefficient-wise "
+           "up to 6x6 and shape-locked; no translator emits the wiring itself",
+           "satisfiability generators: only the draws of numpy's Generator (which k variables, which sign bits) are an oracle, replayed from the "
+           "seed in the worker; how a draw becomes terms is translated from the source and proved",
+           "random generators (uniform, randint, gnp/gnm_random_bqm, ran_r, power_r, doped) and decorators.graph_argument: MONITORED only - for "
+           "every graph-argument form: biases in the declared range/set, interactions exactly on the declared edges, declared nodes present, "
+           "requested vartype, same seed (incl. 0) => equal and independent models; nothing more can be stated because the values are whatever "
+           "numpy's PRNG returns (distribution claims are not decidable on one sample)",
+           "anti_crossing_clique / anti_crossing_loops (not in the statement text): MONITORED - documented structure, biases in {-1,0,1}, "
+           "all-(+1) the unique ground state for <= 14 variables (ExactSolver), guards; shape-locked; no unbounded theorem",
+           "not covered at all (outside the statement text and anchors): chimera_anticluster, frustrated_loop (random cycles on a graph, planted "
+           "solution), binary_paint_shop_problem, wireless.mimo / coordinated_multipoint (floating-point channel models, not exact on dyadic data); "
+           "integer.binary_encoding belongs to C16 (C16_binary_encoding_facts)"]
